@@ -77,6 +77,14 @@ def run(run):
         for leaf in leaves:
             for (t,) in planted(d, (leaf,), not tier_q)[:: (4 if tier_q else 1)]:
                 cases.append((d, t))
+    # whole statements that only one dialect writes: every combination of the Hive clauses, in the order the Hive parser reads them
+    for srt in ("", " SORT BY a DESC"):
+        for dist in ("", " DISTRIBUTE BY b, c"):
+            for lim in ("", " LIMIT 3"):
+                cases.append(("HIVE", "SELECT a FROM t WHERE a > 1" + srt + dist + lim))
+    cases += [("HIVE", "SELECT a FROM t CLUSTER BY a LIMIT 2"), ("HIVE", "SELECT a FROM t LATERAL VIEW OUTER explode(arr) tmp AS x SORT BY x DISTRIBUTE BY x"),
+              ("HIVE", "INSERT OVERWRITE TABLE t PARTITION (dt='1') SELECT a FROM u DISTRIBUTE BY a"),
+              ("MYSQL", "INSERT IGNORE INTO t (a) VALUES (1)"), ("MYSQL", "SELECT a DIV 2, a MOD 3, a % 4 FROM t")]
     d2, f2, kn = c01.roundtrip_cases(run, cases, "own constructs, same dialect")
     dis += d2
     fails += f2
